@@ -362,7 +362,7 @@ def run(ctx):
         stamps, vals = gen_series(rng, it, ctx.tier)
         P = [3600, 1800][it % 2]
         maxgap = [3600, 7200, 5 * 86400][int(rng.integers(0, 3))]
-        if it % 3 == 1 and len(stamps) >= 2:
+        if it % 3 == 1 and len(stamps) >= 2 and (ctx.tier == "quick" or it % 12 == 1):
             # the limit set on the length of one of the record's own intervals (or one
             # second either side), and limits that are not whole hours
             dd_ = np.diff(np.asarray(stamps, dtype=np.int64))
@@ -406,7 +406,7 @@ def run(ctx):
                            "maxgapsec": 5 * 86400, "rainfall": rainfall,
                            "variants": [["ns", "naive"], ["ns", zone], ["s", zone],
                                         ["us", "utc"]]})
-        if it0 % 25 == 13:
+        if it0 % 25 == 13 and (ctx.tier == "quick" or it0 % 200 == 13):
             j = it // 25
             run_long_span(ctx, {"kind": "longspan", "seed": int(rng.integers(0, 2 ** 31)),
                                 "P": [3600, 1800][j % 2], "unit": ["ns", "s", "us"][j % 3],
